@@ -16,7 +16,7 @@ register(
         "GtModel.lev_eq_zero_iff",
         "GtModel.strEdits_cost_zero_iff",
     ],
-    streams=["script", "scriptx"],
+    streams=["script", "scriptx", "cli"],
     assumptions=[
         "objects of the compared documents have distinct keys (Doc.distinctKeys; what json/yaml parsers deliver); "
         "without it graphtage's DictNode equality is multiset equality of pairs and the statement is not claimed",
